@@ -358,7 +358,34 @@ func (b *sourcePathsBuilder) remapDescriptor(
 			newDescriptor.ReservedName = nil
 		}
 	} else {
-		newFields, changed, err := remapSlice(sourcePathsRemap, append(sourcePath, messageFieldsTag), descriptor.GetField(), b.remapField, b.options)
+		// A oneof is dropped when none of its fields remain. The oneofs declared
+		// after it move down, so the oneof index of their fields must follow.
+		newOneofIndexes := make([]int32, len(descriptor.OneofDecl))
+		newOneofIndex := int32(0)
+		for index, oneof := range descriptor.OneofDecl {
+			newOneofIndexes[index] = newOneofIndex
+			if b.closure.elements[oneof] != inclusionModeExcluded {
+				newOneofIndex++
+			}
+		}
+		remapField := func(
+			sourcePathsRemap *sourcePathsRemapTrie,
+			sourcePath protoreflect.SourcePath,
+			field *descriptorpb.FieldDescriptorProto,
+		) (*descriptorpb.FieldDescriptorProto, bool, error) {
+			newField, changed, err := b.remapField(sourcePathsRemap, sourcePath, field)
+			if err != nil || newField == nil || newField.OneofIndex == nil {
+				return newField, changed, err
+			}
+			index := newField.GetOneofIndex()
+			if index < 0 || int(index) >= len(newOneofIndexes) || newOneofIndexes[index] == index {
+				return newField, changed, nil
+			}
+			newField = maybeClone(newField, b.options)
+			newField.OneofIndex = proto.Int32(newOneofIndexes[index])
+			return newField, true, nil
+		}
+		newFields, changed, err := remapSlice(sourcePathsRemap, append(sourcePath, messageFieldsTag), descriptor.GetField(), remapField, b.options)
 		if err != nil {
 			return nil, false, err
 		}
